@@ -146,8 +146,12 @@ def z(x):
 
 
 def zr(x):
-    t = z(x)
-    return z3.ToReal(t) if t.sort() == z3.IntSort() else t
+    if not is_term(x):
+        f = RealFraction(x)
+        return z3.RealVal(str(f.numerator)) if f.denominator == 1 else z3.RealVal(str(f.numerator)) / z3.RealVal(str(f.denominator))
+    if z3.is_int_value(x):
+        return z3.RealVal(x.as_long())
+    return z3.ToReal(x) if x.sort() == z3.IntSort() else x
 
 
 def _norm(x):
@@ -219,8 +223,12 @@ def cmp(op, a, b):
     if not is_term(a) and not is_term(b):
         return {"<": a < b, "<=": a <= b, ">": a > b, ">=": a >= b, "==": a == b, "!=": a != b}[op]
     za, zb = z(a), z(b)
-    if za.sort() != zb.sort():
-        za, zb = zr(a), zr(b)
+    if za.sort() != zb.sort() or za.sort() != z3.IntSort():
+        ia, ib = as_int_term(z3.simplify(za) if is_term(za) else za), as_int_term(z3.simplify(zb) if is_term(zb) else zb)
+        if ia is not None and ib is not None:
+            za, zb = ia, ib
+        else:
+            za, zb = zr(a), zr(b)
     e = {"<": za < zb, "<=": za <= zb, ">": za > zb, ">=": za >= zb, "==": za == zb, "!=": za != zb}[op]
     return SymBool(e)
 
@@ -234,6 +242,44 @@ def bterm(b):
     return z3.BoolVal(bool(b))
 
 
+def as_int_term(t):
+    """Int term equal to the Real term t when t is built from to_real(int terms), integer numerals, +, - and *; else None.
+    (z3 answers unknown on trivial mixed problems such as f <= a < f+1, f != a written over to_real; over Int it is immediate.)"""
+    if not is_term(t):
+        f = RealFraction(t)
+        return z3.IntVal(f.numerator) if f.denominator == 1 else None
+    if t.sort() == z3.IntSort():
+        return t
+    k = t.decl().kind()
+    if k == z3.Z3_OP_TO_REAL:
+        return t.arg(0)
+    if z3.is_rational_value(t):
+        return z3.IntVal(t.numerator_as_long()) if t.denominator_as_long() == 1 else None
+    if k in (z3.Z3_OP_ADD, z3.Z3_OP_MUL, z3.Z3_OP_SUB, z3.Z3_OP_UMINUS):
+        args = [as_int_term(a) for a in t.children()]
+        if any(a is None for a in args):
+            return None
+        if k == z3.Z3_OP_ADD:
+            return z3.Sum(args)
+        if k == z3.Z3_OP_MUL:
+            r = args[0]
+            for a in args[1:]:
+                r = r * a
+            return r
+        if k == z3.Z3_OP_SUB:
+            r = args[0]
+            for a in args[1:]:
+                r = r - a
+            return r
+        return -args[0]
+    if k == z3.Z3_OP_ITE:
+        a, b = as_int_term(t.arg(1)), as_int_term(t.arg(2))
+        if a is None or b is None:
+            return None
+        return z3.If(t.arg(0), a, b)
+    return None
+
+
 def floor_term(t):
     """floor of a Real term as a fresh Int f with the defining constraint f <= t < f+1 asserted (equivalent to ToInt,
     but leaves the solver a plain mixed integer/real linear problem; ToInt terms made z3 answer unknown)."""
@@ -243,6 +289,9 @@ def floor_term(t):
         t = z3.simplify(t)
         if z3.is_rational_value(t):
             return z3.IntVal(t.numerator_as_long() // t.denominator_as_long())
+        ti = as_int_term(t)
+        if ti is not None:
+            return ti
         CTL.aux += 1
         f = z3.Int("fl!%d" % CTL.aux)
         CTL.solver.add(z3.ToReal(f) <= t, t < z3.ToReal(f) + 1)
@@ -783,6 +832,8 @@ class _RatLike(_Num):
         return make_token(kind_payload)
 
     def __format__(self, spec):
+        if spec == "":
+            return str(self)  # like Fraction/Decimal/float: empty spec is str(); subclasses' __str__ is honoured
         if not is_term(self._v):
             return self._concrete_format(spec)
         mm = _FSPEC.match(spec)
@@ -795,12 +846,12 @@ class _RatLike(_Num):
             else:
                 m = round_half_even_term(self._v * (10 ** p))
             return make_token(("dec", m, p))
-        if spec == "":
-            return make_token(("val", self._v, self._nd))
         raise Unsupported("format spec " + spec)
 
     def __str__(self):
-        return self.__format__("")
+        if not is_term(self._v):
+            return self._concrete_format("")
+        return make_token(("val", self._v, self._nd))
 
     def _concrete_format(self, spec):
         return format(RealFraction(self._v), spec) if spec else str(RealFraction(self._v))
@@ -1285,6 +1336,18 @@ def choose(name, n):
             return i
     CTL.assume(v == n - 1)
     return n - 1
+
+
+def tick_index(x, sub=48):
+    """(aligned, k): is the number x a multiple of 1/sub, and the Int term k = sub*x if so.  Structural when x carries an
+    integer form whose denominator divides sub; otherwise decided by the solver (case split)."""
+    nd = nd_of(x)
+    if nd is not None and sub % nd[1] == 0:
+        n, d = nd
+        return True, n * (sub // d)
+    r = zr(term_of(x)) * sub
+    k = floor_term(r)
+    return CTL.branch(z3.ToReal(k) == r), k
 
 
 def feasible():
